@@ -1,7 +1,7 @@
 #!/bin/bash
 # run_all.sh [tier]: every registered check once, with timing; summary at the end.
 tier=${1:-quick}
-cd /verif
+cd "$(dirname "$0")/.."
 for p in C01 C02 C03 C04 C05 C06 C07 C08 C09 C10 C11 C12 C13 C14 C15 C16 C17 C18 C19 C20; do
   s=$(date +%s); out=$(./check $p --tier $tier 2>&1); rc=$?; e=$(date +%s)
   echo "$p rc=$rc $((e-s))s viol=$(echo "$out" | grep -c '^VIOLATION') kf=$(echo "$out" | grep -c '^KNOWN-FINDING') :: $(echo "$out" | tail -1 | cut -c1-150)"
